@@ -1,5 +1,5 @@
 """C07 permissions change only through authorised requests; bans and limits stick.
-Theorems: coq/Props/PropC07.v (group part over Sys/Topic.v, kinds part over Sys/TopicKinds.v).
+Theorems: coq/Props/PropC07.v (group part over Sys/Topic.v, kinds part over Sys/TopicKindsC07.v).
 Check: (G) group-topic histories through the topic-history driver (TestVerifTopic) and the
 topic model runner; (K) p2p / me / fnd / sys histories through harness/overlay/server/
 zz_verif_c07_test.go (TestVerifC07) and the kinds model runner r_c07.ml; (L) groups created
@@ -604,7 +604,8 @@ def k_monitor(sc, blocks):
                             src |= g
                         if peer in rows and rows[peer][1] == sc.users[u][0]:
                             src |= rows[peer][1]
-                        from_init = kind == "sub" and (g == pacc or src) and (not prows.get(u) or prows[u][2] or prows[u][1] == g)
+                        own_req = kind == "sub" or (kind == "setsub" and a == u and args[1] in (0, u) and args[2] == "-")
+                        from_init = own_req and (g == pacc or src) and (not prows.get(u) or prows[u][2] or prows[u][1] == g)
                         for idx, (nm, m) in enumerate((("want", wt), ("given", g))):
                             oldr = prows.get(u)
                             if prev is not None and oldr is not None and oldr[idx] == m:
